@@ -17,7 +17,7 @@ BOUNDS = {
     "quick": "all field values, positions and eigenvalues symbolic; N<=4 (participation ratio bounds), N=3 with concrete neighbour "
              "topologies (alignment, phase quotient, divergence/curl in 2D and 3D, open and concrete periodic cells), 2 modes x 2 "
              "particles (vibrability), Q<=3 wave vectors in concrete boxes (decomposition), F=2 frames (correlation variant)",
-    "thorough": "as quick with N=4 neighbour harnesses and Q=4",
+    "thorough": "as quick with N<=5 neighbour harnesses (triclinic, mixed masks), Q=4, N=4 decomposition, F=3 correlation",
 }
 STUBS = ["cos/sin of a phase -> structural cache", "np.rint -> symbol + lemma instances", "np.save / to_csv -> recorders (symbolic run)"]
 ASSUMPTIONS = ["floats modelled as reals", "non-zero field (participation ratio defined)", "non-zero wave vectors", "sum of |dot products| "
@@ -233,7 +233,7 @@ def h_corr(ctx, d, N, F, box, qvec):
 
 
 def cfg_pr(tier, seed):
-    return [dict(N=2, d=2), dict(N=3, d=2), dict(N=4, d=2), dict(N=3, d=3)]
+    return [dict(N=2, d=2), dict(N=3, d=2), dict(N=4, d=2), dict(N=3, d=3)] + ([dict(N=4, d=3), dict(N=5, d=2)] if tier == "thorough" else [])
 
 
 def cfg_nb(tier, seed):
@@ -243,11 +243,14 @@ def cfg_nb(tier, seed):
            dict(N=3, d=3, topo=[[1], [2], [0, 1]], cell="o", ppp=[1, 1, 0])]
     if tier == "thorough":
         out.append(dict(N=4, d=3, topo=[[1, 2, 3], [0], [3], [0, 1]], cell="t+", ppp=[1, 1, 1]))
+        out.append(dict(N=4, d=3, topo=[[1], [0, 2, 3], [3, 1], [2]], cell="t-", ppp=[1, 0, 1]))
+        out.append(dict(N=4, d=2, topo=[[1, 2, 3], [2], [0, 3], [1]], cell="t+", ppp=[1, 1]))
+        out.append(dict(N=5, d=2, topo=[[1, 4], [0, 2], [3], [4, 0, 1], [2]], cell="o", ppp=[0, 1]))
     return out
 
 
 def cfg_vib(tier, seed):
-    return [dict(N=2, d=2), dict(N=2, d=3)]
+    return [dict(N=2, d=2), dict(N=2, d=3)] + ([dict(N=3, d=2), dict(N=3, d=3)] if tier == "thorough" else [])
 
 
 def cfg_decomp(tier, seed):
@@ -255,11 +258,14 @@ def cfg_decomp(tier, seed):
            dict(d=3, N=2, box=0, qvec=[[1, 0, 0], [0, 1, 1]])]
     if tier == "thorough":
         out.append(dict(d=3, N=3, box=1, qvec=[[1, 1, 1], [0, 0, 1], [1, 0, -1], [2, 0, 0]]))
+        out.append(dict(d=2, N=4, box=2, qvec=[[1, 2], [-2, 1], [3, 0], [0, -1]]))
+        out.append(dict(d=3, N=4, box=0, qvec=[[1, -1, 0], [0, 2, 1]]))
     return out
 
 
 def cfg_corr(tier, seed):
-    return [dict(d=2, N=2, F=2, box=0, qvec=[[1, 0], [1, 1]])]
+    return [dict(d=2, N=2, F=2, box=0, qvec=[[1, 0], [1, 1]])] + \
+        ([dict(d=2, N=2, F=3, box=1, qvec=[[1, -1], [0, 2]]), dict(d=3, N=2, F=2, box=0, qvec=[[1, 0, 1]])] if tier == "thorough" else [])
 
 
 HARNESSES = [H("participation_ratio", h_pr, cfg_pr, timeout_ms=30000), H("neighbour_measures", h_neighbors, cfg_nb, timeout_ms=30000),
